@@ -70,18 +70,39 @@ Record KI (P : kparams) (cs0 : CS) (chunks : list (bytes * bool)) (k : kstate) :
   ki_in : if kp_stableIn P then k_inPend k = []
           else k_inToCompress k + lenN (k_inPend k) = k_inBuffPos k /\ k_inBuffPos k <= k_inBuffTarget k;
   ki_out : k_outFlushed k + lenN (k_outPend k) = k_outContent k;
-  ki_load : k_stage k = KLoad -> k_outContent k = 0 /\ k_frameEnded k = false /\
-                                 (kp_stableIn P = false -> k_inBuffPos k < k_inBuffTarget k);
-  ki_flush : k_stage k = KFlush -> kp_stableIn P = false -> k_frameEnded k = false -> k_inBuffPos k < k_inBuffTarget k;
+  ki_load : k_stage k = KLoad -> k_outContent k = 0 /\ k_frameEnded k = false;
   ki_nolast : k_frameEnded k = false -> nolast chunks;
   ki_ended : k_frameEnded k = true -> complete chunks /\ k_inPend k = [];
   ki_init : k_stage k = KInit -> k_outPend k = [] /\ k_inPend k = [];
   ki_bs : k_stage k <> KInit -> 1 <= k_blockSize k }.
 
+(* between loop iterations the input buffer of a live frame is never full *)
+Definition Strict (P : kparams) (k : kstate) : Prop :=
+  kp_stableIn P = false -> k_frameEnded k = false -> k_inBuffPos k < k_inBuffTarget k.
+
 (* potential bounding the number of loop iterations of one call *)
 Definition phi (g : gstate) : N :=
   2 * lenN (g_in g) + (match k_stage (g_k g) with KFlush => 1 | _ => 0 end)
-                    + (match k_inPend (g_k g) with [] => 0 | _ => 2 end).
+                    + (match k_inPend (g_k g) with [] => 0 | _ => 2 end)
+                    + (if k_frameEnded (g_k g) then 0 else 2).
+
+(* the chunks added by a step are real work: some input byte, or the chunk that closes the frame *)
+Definition Work (more : list (bytes * bool)) : Prop :=
+  more = [] \/ chunks_in more <> [] \/ exists c, In (c, true) more.
+Lemma Work_app a b : Work a -> Work b -> Work (a ++ b).
+Proof.
+  intros Ha Hb. destruct Ha as [->|Ha]; [exact Hb|]. destruct Hb as [->|Hb]; [rewrite app_nil_r; right; exact Ha|].
+  right. destruct Ha as [Ha|[c Ha]].
+  - left. unfold chunks_in in *. rewrite map_app, concat_app. intros E. apply app_eq_nil in E. tauto.
+  - right. exists c. apply in_or_app. auto.
+Qed.
+
+Lemma Work_one c last : (last = false -> c <> []) -> Work [(c, last)].
+Proof.
+  intros H. right. destruct last.
+  - right. exists c. left. reflexivity.
+  - left. unfold chunks_in. cbn. rewrite app_nil_r. apply H. reflexivity.
+Qed.
 
 (* what one step of the loop may do to the locals: input is taken from the front, output appended, and the two
    conservation laws (input: fed ++ pending ++ held ++ not-yet-read ; output: produced = written ++ pending) *)
@@ -94,25 +115,25 @@ Record GStep (cs0 : CS) (chunks chunks' : list (bytes * bool)) (g g' : gstate) :
   gs_len : lenN (g_in g') <= lenN (g_in g);
   gs_cap : g_ocap g' + lenN (g_out g') = g_ocap g + lenN (g_out g);
   gs_outext : exists e, g_out g' = g_out g ++ e;
-  gs_ext : exists more, chunks' = chunks ++ more }.
+  gs_ext : exists more, chunks' = chunks ++ more /\ Work more }.
 
 Lemma GStep_refl cs0 chunks g : GStep cs0 chunks chunks g g.
 Proof.
   constructor; try reflexivity; try lia.
   - exists []. rewrite !app_nil_r. split; reflexivity.
   - exists []. rewrite app_nil_r. reflexivity.
-  - exists []. rewrite app_nil_r. reflexivity.
+  - exists []. rewrite app_nil_r. split; [reflexivity|left; reflexivity].
 Qed.
 Lemma GStep_trans cs0 c1 c2 c3 g1 g2 g3 : GStep cs0 c1 c2 g1 g2 -> GStep cs0 c2 c3 g2 g3 -> GStep cs0 c1 c3 g1 g3.
 Proof.
-  intros [a1 [d1 [b1 b1']] e1 f1 h1 [x1 i1] [m1 j1]] [a2 [d2 [b2 b2']] e2 f2 h2 [x2 i2] [m2 j2]].
+  intros [a1 [d1 [b1 b1']] e1 f1 h1 [x1 i1] [m1 [j1 w1]]] [a2 [d2 [b2 b2']] e2 f2 h2 [x2 i2] [m2 [j2 w2]]].
   constructor; try lia.
   - rewrite a2, a1. reflexivity.
   - exists (d1 ++ d2). split.
     + rewrite b2, b1, app_assoc. reflexivity.
     + rewrite b2', app_assoc, b1'. rewrite <- !app_assoc. reflexivity.
   - exists (x1 ++ x2). rewrite i2, i1, app_assoc. reflexivity.
-  - exists (m1 ++ m2). rewrite j2, j1, app_assoc. reflexivity.
+  - exists (m1 ++ m2). rewrite j2, j1, app_assoc. split; [reflexivity|apply Work_app; auto].
 Qed.
 
 Lemma chunks_in_app a b : chunks_in (a ++ b) = chunks_in a ++ chunks_in b.
@@ -126,14 +147,15 @@ Lemma GStep_mk cs0 chunks g g' more (d e : bytes) :
   g_ip g' + lenN (g_in g') = g_ip g + lenN (g_in g) ->
   lenN (g_in g') <= lenN (g_in g) ->
   g_ocap g' + lenN e = g_ocap g ->
+  Work more ->
   GStep cs0 chunks (chunks ++ more) g g'.
 Proof.
-  intros Hin Hout He Hpend Hip Hlen Hcap. constructor; auto.
+  intros Hin Hout He Hpend Hip Hlen Hcap Hw. constructor; auto.
   - rewrite chunks_in_app, <- app_assoc, Hin. reflexivity.
   - exists d. split; [exact Hout|]. rewrite He, <- app_assoc, Hpend. reflexivity.
   - rewrite He, lenN_app. lia.
   - exists e. exact He.
-  - exists more. reflexivity.
+  - exists more. split; [reflexivity|exact Hw].
 Qed.
 
 Lemma GStep_same cs0 chunks g g' (e : bytes) :
@@ -146,7 +168,7 @@ Lemma GStep_same cs0 chunks g g' (e : bytes) :
   GStep cs0 chunks chunks g g'.
 Proof.
   intros Hin He Hpend Hip Hlen Hcap.
-  pose proof (GStep_mk cs0 chunks g g' [] [] e) as H. rewrite !app_nil_r in H. apply H; auto.
+  pose proof (GStep_mk cs0 chunks g g' [] [] e) as H. rewrite !app_nil_r in H. apply H; auto. left; reflexivity.
 Qed.
 
 (* why the loop of one call stopped *)
@@ -161,17 +183,17 @@ Definition IterOK (P : kparams) (cs0 : CS) (dir : directive) (chunks : list (byt
   match r with
   | GErr e => e = KdstSize_tooSmall
   | GCont g' => exists chunks', KI P cs0 chunks' (g_k g') /\ GStep cs0 chunks chunks' g g' /\ k_stage (g_k g') = KLoad /\
-                                phi g' < phi g /\ k_held (g_k g') = []
+                                phi g' < phi g /\ k_held (g_k g') = [] /\ Strict P (g_k g')
   | GStop g' => exists chunks', KI P cs0 chunks' (g_k g') /\ GStep cs0 chunks chunks' g g' /\ StopWhy P dir g' /\
-                                (kp_stableIn P = false -> k_held (g_k g') = [])
+                                (kp_stableIn P = false -> k_held (g_k g') = []) /\ Strict P (g_k g')
   end.
 
 (* ---------- the flush stage ---------- *)
 Lemma g_flush_spec P cs0 dir chunks g :
-  KI P cs0 chunks (g_k g) -> k_stage (g_k g) = KFlush -> k_held (g_k g) = [] ->
+  KI P cs0 chunks (g_k g) -> k_stage (g_k g) = KFlush -> k_held (g_k g) = [] -> Strict P (g_k g) ->
   IterOK P cs0 dir chunks g (g_flush g).
 Proof.
-  intros K Hst Hh. destruct g as [k gin gip gout gcap]. ksimp.
+  intros K Hst Hh HS. destruct g as [k gin gip gout gcap]. unfold Strict in *. ksimp.
   unfold CStreamModel.g_flush, IterOK. ksimp.
   pose proof (ki_out _ _ _ _ K) as Ho.
   set (toFlush := k_outContent k - k_outFlushed k).
@@ -181,7 +203,7 @@ Proof.
     assert (Hall : tk (N.min gcap toFlush) (k_outPend k) = k_outPend k) by (apply tk_all; lia).
     destruct (k_frameEnded k) eqn:Efe; ksimp; exists chunks.
     + (* frame ended: session reset *)
-      split; [|split; [|split]].
+      split; [|split; [|split; [|split]]].
       * destruct K. constructor; ksimp; ki_close.
         intros _. split; [reflexivity|]. apply ki_ended0. exact Efe.
       * apply GStep_same with (e := tk (N.min gcap toFlush) (k_outPend k)); ksimp; try reflexivity; try lia.
@@ -189,15 +211,17 @@ Proof.
         -- rewrite Hall. lia.
       * apply SW_ended; ksimp; auto.
       * intros _. exact Hh.
-    + split; [|split; [|split; [reflexivity|split; [|exact Hh]]]].
+      * ksimp. intros; discriminate.
+    + split; [|split; [|split; [reflexivity|split; [|split; [exact Hh|]]]]].
       * destruct K. constructor; ksimp; ki_close.
       * apply GStep_same with (e := tk (N.min gcap toFlush) (k_outPend k)); ksimp; try reflexivity; try lia.
         -- rewrite !app_nil_r. exact Hall.
         -- rewrite Hall. lia.
-      * unfold phi. ksimp. rewrite Hst. lia.
+      * unfold phi. ksimp. rewrite Hst, Efe. lia.
+      * ksimp. exact HS.
   - (* output full before the flush completes *)
     assert (Hmin : N.min gcap toFlush = gcap) by lia.
-    rewrite Hmin. ksimp. exists chunks. split; [|split; [|split]].
+    rewrite Hmin. ksimp. exists chunks. split; [|split; [|split; [|split]]].
     + destruct K. constructor; ksimp; ki_close.
       rewrite len_dr. lia.
     + apply GStep_same with (e := tk gcap (k_outPend k)); ksimp; try reflexivity; try lia.
@@ -205,16 +229,17 @@ Proof.
       * rewrite len_tk. lia.
     + apply SW_full; ksimp; try reflexivity; lia.
     + intros _. exact Hh.
+    + ksimp. exact HS.
 Qed.
 
 Lemma IterOK_trans P cs0 dir c1 c2 g1 g2 r :
   GStep cs0 c1 c2 g1 g2 -> phi g2 <= phi g1 -> IterOK P cs0 dir c2 g2 r -> IterOK P cs0 dir c1 g1 r.
 Proof.
   intros S Hphi. destruct r as [g'|g'|e]; cbn [IterOK]; auto.
-  - intros (c3 & K & S' & Hst & Hp & Hh). exists c3.
-    split; [exact K|split; [eapply GStep_trans; eauto|split; [exact Hst|split; [lia|exact Hh]]]].
-  - intros (c3 & K & S' & W & Hh). exists c3.
-    split; [exact K|split; [eapply GStep_trans; eauto|split; [exact W|exact Hh]]].
+  - intros (c3 & K & S' & Hst & Hp & Hh & Hs). exists c3.
+    split; [exact K|split; [eapply GStep_trans; eauto|split; [exact Hst|split; [lia|split; [exact Hh|exact Hs]]]]].
+  - intros (c3 & K & S' & W & Hh & Hs). exists c3.
+    split; [exact K|split; [eapply GStep_trans; eauto|split; [exact W|split; [exact Hh|exact Hs]]]].
 Qed.
 
 Lemma complete_snoc l c : nolast l -> complete (l ++ [(c, true)]).
@@ -228,7 +253,7 @@ Lemma g_compress_spec P cs0 dir chunks g :
   IterOK P cs0 dir chunks g (g_compress P dir g).
 Proof.
   intros K Hst Hh Hne. destruct g as [k gin gip gout gcap]. ksimp.
-  pose proof (ki_load _ _ _ _ K Hst) as (Hc0 & Hfe & Hpos).
+  pose proof (ki_load _ _ _ _ K Hst) as (Hc0 & Hfe).
   pose proof (ki_out _ _ _ _ K) as Ho.
   pose proof (ki_bs _ _ _ _ K ltac:(congruence)) as Hbs.
   assert (Hop : k_outPend k = []) by (apply lenN_zero_nil; lia).
@@ -254,6 +279,8 @@ Proof.
     { intros Hl. unfold iSize. destruct Hne as [Hne|Hne].
       - assert (lenN gin <> 0) by (intros Z; apply Hne, lenN_zero_nil, Z). lia.
       - subst dir. unfold last, isEnd in Hl. cbn [andb] in Hl. apply N.eqb_neq in Hl. rewrite len_dr in Hl. unfold iSize in Hl. lia. }
+    assert (Hw : Work [(tk iSize gin, last)]).
+    { apply Work_one. intros Hl E. specialize (Hnz Hl). apply (f_equal lenN) in E. rewrite len_tk, lenN_nil in E. unfold iSize in *. lia. }
     assert (KI' : forall st content flushed pend,
               flushed + lenN pend = content ->
               (st = KLoad -> content = 0 /\ last = false) ->
@@ -268,10 +295,10 @@ Proof.
     destruct direct eqn:Edir.
     + (* written straight into the caller's output *)
       destruct last eqn:El.
-      * cbn [IterOK]. exists chunks'. split; [|split; [|split]].
+      * cbn [IterOK]. exists chunks'. split; [|split; [|split; [|split]]]; [| | | |unfold Strict; congruence].
         -- pose proof (KI' KInit 0 0 []) as H. ksimp. rewrite Hc0, Hop in *.
            replace (k_outFlushed k) with 0 by lia. apply H; auto; intros; discriminate.
-        -- apply GStep_mk with (d := cout) (e := cout); ksimp; rewrite ?Hin, ?Hh, ?Hop; cbn [app]; try reflexivity.
+        -- apply GStep_mk with (d := cout) (e := cout); [| | | | | | |exact Hw]; ksimp; rewrite ?Hin, ?Hh, ?Hop; cbn [app]; try reflexivity.
            ++ unfold chunks_in. cbn. rewrite app_nil_r, Hlast by reflexivity. rewrite app_nil_r.
               rewrite <- (tk_dr iSize gin) at 2. rewrite Hlast by reflexivity. rewrite app_nil_r. reflexivity.
            ++ exact Hout'.
@@ -281,10 +308,10 @@ Proof.
            ++ lia.
         -- apply SW_ended; ksimp; auto.
         -- intros; congruence.
-      * cbn [IterOK]. exists chunks'. split; [|split; [|split; [|split]]].
+      * cbn [IterOK]. exists chunks'. split; [|split; [|split; [|split; [|split]]]]; [| | | | |unfold Strict; congruence].
         -- pose proof (KI' KLoad 0 0 []) as H. ksimp. rewrite Hc0, Hop in *.
            replace (k_outFlushed k) with 0 by lia. rewrite Hst. apply H; auto; intros; discriminate.
-        -- apply GStep_mk with (d := cout) (e := cout); ksimp; rewrite ?Hin, ?Hh, ?Hop; cbn [app]; try reflexivity.
+        -- apply GStep_mk with (d := cout) (e := cout); [| | | | | | |exact Hw]; ksimp; rewrite ?Hin, ?Hh, ?Hop; cbn [app]; try reflexivity.
            ++ unfold chunks_in. cbn. rewrite app_nil_r. apply tk_dr.
            ++ exact Hout'.
            ++ rewrite app_nil_r. reflexivity.
@@ -292,23 +319,23 @@ Proof.
            ++ rewrite len_dr. lia.
            ++ lia.
         -- ksimp. exact Hst.
-        -- unfold phi. ksimp. rewrite Hst, Hin, len_dr. specialize (Hnz eq_refl). unfold iSize in *. lia.
+        -- unfold phi. ksimp. rewrite Hst, Hin, len_dr, Hfe. specialize (Hnz eq_refl). unfold iSize in *. lia.
         -- ksimp. exact Hh.
     + (* into outBuff, then the flush stage *)
       set (gmid := g_mk (k_set_out (k_set_cs k cs' last) KFlush (lenN cout) 0 cout) (dr iSize gin) (gip + iSize) gout gcap).
       apply IterOK_trans with (c2 := chunks') (g2 := gmid).
-      * apply GStep_mk with (d := cout) (e := []); unfold gmid; ksimp; rewrite ?Hin, ?Hh, ?Hop; cbn [app]; try reflexivity.
+      * apply GStep_mk with (d := cout) (e := []); [| | | | | | |exact Hw]; unfold gmid; ksimp; rewrite ?Hin, ?Hh, ?Hop; cbn [app]; try reflexivity.
         -- unfold chunks_in. cbn. rewrite app_nil_r. apply tk_dr.
         -- exact Hout'.
         -- rewrite app_nil_r. reflexivity.
         -- rewrite len_dr. pose proof (len_tk iSize gin). unfold iSize. lia.
         -- rewrite len_dr. lia.
         -- cbn. lia.
-      * unfold phi, gmid. ksimp. rewrite Hst, Hin, len_dr.
+      * unfold phi, gmid. ksimp. rewrite Hst, Hin, len_dr, Hfe.
         destruct last eqn:El.
-        -- rewrite Hlast by reflexivity. cbn [lenN]. destruct gin; cbn; lia.
+        -- lia.
         -- specialize (Hnz eq_refl). unfold iSize in *. lia.
-      * apply g_flush_spec; unfold gmid; ksimp; auto.
+      * apply g_flush_spec; unfold gmid; ksimp; auto; [|unfold Strict; congruence].
         apply KI'; auto; intros; discriminate.
   - (* buffered input: the chunk is inBuff[inToCompress .. inBuffPos) *)
     pose proof (ki_in _ _ _ _ K) as Hin. rewrite ESI in Hin. destruct Hin as [Hsum Hle].
@@ -327,66 +354,223 @@ Proof.
     { unfold last. intros H. apply andb_prop in H. destruct H as [_ H]. apply N.eqb_eq in H. apply lenN_zero_nil. exact H. }
     assert (Hnz : last = false -> k_inPend k <> []).
     { intros Hl. destruct Hne as [Hne|[-> Hne]]; [exact Hne|]. subst gin. discriminate Hl. }
-    set (k2 := if k_inBuffSize k <? k_inBuffPos k + k_blockSize k
-               then k_set_in (k_set_cs k cs' last) 0 0 (k_blockSize k) []
-               else k_set_in (k_set_cs k cs' last) (k_inBuffPos k) (k_inBuffPos k) (k_inBuffPos k + k_blockSize k) []).
+    match goal with |- context [if k_inBuffSize k <? ?x then ?a else ?b] =>
+      remember (if k_inBuffSize k <? x then a else b) as k2 eqn:Ek2 end.
     assert (K2 : k_inPend k2 = [] /\ k_held k2 = k_held k /\ k_outPend k2 = k_outPend k /\ k_stage k2 = k_stage k /\
                  k_cs k2 = cs' /\ k_frameEnded k2 = last /\ k_outContent k2 = k_outContent k /\ k_outFlushed k2 = k_outFlushed k /\
                  k_blockSize k2 = k_blockSize k /\
                  k_inToCompress k2 + 0 = k_inBuffPos k2 /\ k_inBuffPos k2 < k_inBuffTarget k2).
-    { unfold k2. destruct (k_inBuffSize k <? k_inBuffPos k + k_blockSize k); ksimp; repeat split; lia. }
+    { subst k2. destruct (k_inBuffSize k <? k_inBuffPos k + k_blockSize k); ksimp; repeat split; lia. }
+    clear Ek2.
     destruct K2 as (K2a & K2b & K2c & K2d & K2e & K2f & K2g & K2h & K2i & K2j & K2k).
-    assert (KI' : forall st content flushed pend,
-              flushed + lenN pend = content ->
-              (st = KLoad -> content = 0 /\ last = false) ->
-              (st = KInit -> pend = []) ->
-              KI P cs0 chunks' (k_set_out k2 st content flushed pend)).
-    { intros st content flushed pend Hsum' Hld Hini. destruct K. constructor; ksimp; rewrite ?ESI, ?K2a, ?K2e, ?K2f, ?K2i; ki_close.
+    assert (Hw : Work [(k_inPend k, last)]).
+    { apply Work_one. exact Hnz. }
+    assert (KI' : forall k3, k_cs k3 = cs' -> k_inPend k3 = [] -> k_inToCompress k3 = k_inBuffPos k3 ->
+              k_inBuffPos k3 < k_inBuffTarget k3 -> k_frameEnded k3 = last -> k_blockSize k3 = k_blockSize k ->
+              k_outFlushed k3 + lenN (k_outPend k3) = k_outContent k3 ->
+              (k_stage k3 = KLoad -> k_outContent k3 = 0 /\ last = false) ->
+              (k_stage k3 = KInit -> k_outPend k3 = []) ->
+              KI P cs0 chunks' k3).
+    { intros k3 H1 H2 H3 H4 H5 H6 H7 H8 H9. constructor; rewrite ?ESI, ?H1, ?H2, ?H5, ?H6; ki_close.
       all: try (rewrite lenN_nil; split; lia).
-      all: try (intros E; destruct (Hld E); repeat split; auto; intros; discriminate).
-      all: try (intros; discriminate).
+      all: try (intros E; destruct (H8 E); repeat split; auto; intros; discriminate).
       all: try (intros Hl; unfold chunks'; rewrite Hl; apply nolast_snoc; exact Hnl).
       all: try (intros Hl; split; [unfold chunks'; rewrite Hl; apply complete_snoc; exact Hnl|auto]).
       all: try (intros E; split; auto). }
-    fold k2.
     destruct direct eqn:Edir.
     + destruct last eqn:El.
-      * cbn [IterOK]. exists chunks'. split; [|split; [|split]].
-        -- pose proof (KI' KInit (k_outContent k) (k_outFlushed k) (k_outPend k)) as H.
-           assert (Hk : k_session_reset k2 = k_set_out k2 KInit (k_outContent k) (k_outFlushed k) (k_outPend k)).
-           { unfold k_session_reset, k_set_stage, k_set_out. f_equal; auto. }
-           ksimp. unfold k_session_reset in Hk. ksimp. rewrite Hk. apply H; auto; intros; try discriminate.
-        -- apply GStep_mk with (d := cout) (e := cout); ksimp; rewrite ?K2a, ?K2b, ?K2c, ?Hh, ?Hop; cbn [app]; try reflexivity; try lia.
-           ++ unfold chunks_in. cbn. rewrite app_nil_r. reflexivity.
-           ++ exact Hout'.
-           ++ rewrite app_nil_r. reflexivity.
+      * cbn [IterOK]. exists chunks'. split; [|split; [|split; [|split]]]; [| | | |unfold Strict; ksimp; intros; exact K2k].
+        -- apply KI'; ksimp; rewrite ?K2a, ?K2c, ?K2f, ?K2g, ?K2h, ?K2i; auto; try lia; try (intros; discriminate).
+        -- apply GStep_mk with (d := cout) (e := cout); [| | | | | | |exact Hw]; ksimp; rewrite ?K2a, ?K2b, ?K2c, ?Hh, ?Hop; cbn [app]; try reflexivity; try lia.
+           all: try (unfold chunks_in; cbn; rewrite ?app_nil_r; reflexivity).
+           all: try exact Hout'.
         -- apply SW_ended; ksimp; rewrite ?K2f, ?K2c; auto.
         -- intros _. ksimp. rewrite K2b. exact Hh.
-      * cbn [IterOK]. exists chunks'. split; [|split; [|split; [|split]]].
-        -- pose proof (KI' KLoad (k_outContent k) (k_outFlushed k) (k_outPend k)) as H.
-           assert (Hk : k2 = k_set_out k2 KLoad (k_outContent k) (k_outFlushed k) (k_outPend k)).
-           { destruct k2; ksimp. subst. reflexivity. }
-           ksimp. rewrite Hk. apply H; auto; intros; try discriminate. split; [lia|reflexivity].
-        -- apply GStep_mk with (d := cout) (e := cout); ksimp; rewrite ?K2a, ?K2b, ?K2c, ?Hh, ?Hop; cbn [app]; try reflexivity; try lia.
-           ++ unfold chunks_in. cbn. rewrite app_nil_r. reflexivity.
-           ++ exact Hout'.
-           ++ rewrite app_nil_r. reflexivity.
+      * cbn [IterOK]. exists chunks'. split; [|split; [|split; [|split; [|split]]]]; [| | | | |unfold Strict; ksimp; intros; exact K2k].
+        -- apply KI'; ksimp; rewrite ?K2a, ?K2c, ?K2f, ?K2g, ?K2h, ?K2i; auto; try lia; try (intros; discriminate).
+           all: try (intros _; split; [lia|reflexivity]).
+        -- apply GStep_mk with (d := cout) (e := cout); [| | | | | | |exact Hw]; ksimp; rewrite ?K2a, ?K2b, ?K2c, ?Hh, ?Hop; cbn [app]; try reflexivity; try lia.
+           all: try (unfold chunks_in; cbn; rewrite ?app_nil_r; reflexivity).
+           all: try exact Hout'.
         -- ksimp. rewrite K2d. exact Hst.
-        -- unfold phi. ksimp. rewrite K2a, K2d, Hst. specialize (Hnz eq_refl). destruct (k_inPend k); [congruence|lia].
+        -- unfold phi. ksimp. rewrite K2a, K2d, K2f, Hst, Hfe. specialize (Hnz eq_refl). destruct (k_inPend k); [congruence|lia].
         -- ksimp. rewrite K2b. exact Hh.
     + set (gmid := g_mk (k_set_out k2 KFlush (lenN cout) 0 cout) gin gip gout gcap).
       apply IterOK_trans with (c2 := chunks') (g2 := gmid).
-      * apply GStep_mk with (d := cout) (e := []); unfold gmid; ksimp; rewrite ?K2a, ?K2b, ?Hh, ?Hop; cbn [app]; try reflexivity; try lia.
-        -- unfold chunks_in. cbn. rewrite app_nil_r. reflexivity.
-        -- exact Hout'.
-        -- rewrite app_nil_r. reflexivity.
-        -- cbn. lia.
-      * unfold phi, gmid. ksimp. rewrite Hst.
+      * apply GStep_mk with (d := cout) (e := []); [| | | | | | |exact Hw]; unfold gmid; ksimp; rewrite ?K2a, ?K2b, ?Hh, ?Hop; cbn [app]; try reflexivity; try lia.
+        all: try (unfold chunks_in; cbn; rewrite ?app_nil_r; reflexivity).
+        all: try exact Hout'.
+        all: try (cbn; lia).
+      * unfold phi, gmid. ksimp. rewrite Hst, K2a, K2f, Hfe.
         destruct last eqn:El.
-        -- rewrite Hlast by reflexivity. cbn [lenN]. destruct (k_inPend k); cbn; lia.
+        -- destruct (k_inPend k); lia.
         -- specialize (Hnz eq_refl). destruct (k_inPend k); [congruence|lia].
-      * apply g_flush_spec; unfold gmid; ksimp; rewrite ?K2b; auto.
-        apply KI'; auto; intros; discriminate.
+      * apply g_flush_spec; unfold gmid; ksimp; rewrite ?K2b; auto; [|unfold Strict; ksimp; intros; exact K2k].
+        apply KI'; ksimp; rewrite ?K2a, ?K2c, ?K2f, ?K2g, ?K2h, ?K2i; auto; try lia; try (intros; discriminate).
 Qed.
+
+(* ---------- the load stage ---------- *)
+Lemma phi_le_after_load (k k1 : kstate) gin gip gout gcap d :
+  k_stage k1 = k_stage k -> k_frameEnded k1 = k_frameEnded k ->
+  (d = 0 -> k_inPend k1 = k_inPend k) -> d <= lenN gin ->
+  phi (g_mk k1 (dr d gin) (gip + d) gout gcap) <= phi (g_mk k gin gip gout gcap).
+Proof.
+  intros H1 H2 H3 H4. unfold phi. ksimp. rewrite H1, H2, len_dr.
+  destruct (N.eqb_spec d 0) as [->|Hd].
+  - rewrite H3 by reflexivity. lia.
+  - destruct (k_inPend k1); destruct (k_inPend k); lia.
+Qed.
+
+Lemma g_load_spec P cs0 dir chunks g :
+  KI P cs0 chunks (g_k g) -> k_stage (g_k g) = KLoad -> k_held (g_k g) = [] -> Strict P (g_k g) ->
+  IterOK P cs0 dir chunks g (g_load P dir g).
+Proof.
+  intros K Hst Hh HS. destruct g as [k gin gip gout gcap]. ksimp.
+  pose proof (ki_load _ _ _ _ K Hst) as (Hc0 & Hfe).
+  pose proof (ki_out _ _ _ _ K) as Ho.
+  pose proof (ki_bs _ _ _ _ K ltac:(congruence)) as Hbs.
+  assert (Hop : k_outPend k = []) by (apply lenN_zero_nil; lia).
+  pose proof (ki_nolast _ _ _ _ K Hfe) as Hnl.
+  pose proof (ki_in _ _ _ _ K) as Hin.
+  unfold CStreamModel.g_load. ksimp.
+  set (isEnd := match dir with DirEnd => true | _ => false end).
+  destruct (andb isEnd (andb (orb (fits_bound gcap (lenN gin)) (kp_stableOut P)) (k_inBuffPos k =? 0))) eqn:Eshort.
+  - (* direct compressEnd of everything that is left *)
+    apply andb_prop in Eshort. destruct Eshort as [Eend Eshort]. apply andb_prop in Eshort. destruct Eshort as [_ Epos].
+    apply N.eqb_eq in Epos.
+    assert (Hpend : k_inPend k = []).
+    { destruct (kp_stableIn P); [exact Hin|]. apply lenN_zero_nil. lia. }
+    destruct (compress_chunk (k_cs k) gin true) as [cs' cout] eqn:ECC.
+    destruct (N.ltb_spec gcap (lenN cout)) as [Hbig|Hfit]; [reflexivity|].
+    set (chunks' := chunks ++ [(gin, true)]).
+    cbn [IterOK]. exists chunks'. split; [|split; [|split; [|split]]].
+    + destruct K. constructor; ksimp; ki_close.
+      all: try (unfold chunks'; rewrite st_of_snoc, <- ki_cs0, ECC; reflexivity).
+      all: try (intros _; split; [apply complete_snoc; exact Hnl|exact Hpend]).
+      all: try (intros _; split; [exact Hop|exact Hpend]).
+    + apply GStep_mk with (d := cout) (e := cout); [| | | | | | |apply Work_one; intros; discriminate]; ksimp; rewrite ?Hpend, ?Hh, ?Hop; cbn [app]; try reflexivity; try lia.
+      all: try (unfold chunks_in; cbn; rewrite ?app_nil_r; reflexivity).
+      all: try (rewrite outs_snoc, <- (ki_cs _ _ _ _ K), ECC; reflexivity).
+      all: try (cbn [lenN lenN_acc]; lia).
+    + apply SW_ended; ksimp; auto.
+    + intros _. ksimp. exact Hh.
+    + unfold Strict. ksimp. intros; discriminate.
+  - destruct (kp_stableIn P) eqn:ESI; cbn [negb].
+    + (* stable input *)
+      destruct dir.
+      * destruct (N.ltb_spec (lenN gin) (k_blockSize k)) as [Hsmall|Hbig].
+        -- cbn [IterOK]. exists chunks. split; [|split; [|split; [|split]]].
+           ++ destruct K. constructor; ksimp; ki_close.
+           ++ apply GStep_same with (e := []); ksimp; rewrite ?Hh, ?app_nil_r; cbn [app]; try reflexivity; try lia.
+              all: rewrite ?lenN_nil; lia.
+           ++ apply SW_cont; ksimp; auto.
+           ++ intros; congruence.
+           ++ unfold Strict. intros; congruence.
+        -- apply g_compress_spec; ksimp; auto. rewrite ESI. left. intros ->. cbn in Hbig. lia.
+      * destruct (N.eqb_spec (lenN gin) 0) as [Hz|Hnz].
+        -- cbn [IterOK]. exists chunks. split; [exact K|split; [apply GStep_refl|split; [|split]]].
+           ++ apply SW_flushed; ksimp; auto. apply lenN_zero_nil; exact Hz.
+           ++ intros; congruence.
+           ++ unfold Strict. intros; congruence.
+        -- apply g_compress_spec; ksimp; auto. rewrite ESI. left. intros ->. apply Hnz. reflexivity.
+      * apply g_compress_spec; ksimp; auto. rewrite ESI. right. reflexivity.
+    + (* buffered input: fill inBuff up to inBuffTarget *)
+      destruct Hin as [Hsum Hle].
+      pose proof (HS ESI Hfe) as Hlt. ksimp.
+      set (toLoad := k_inBuffTarget k - k_inBuffPos k).
+      set (loaded := N.min toLoad (lenN gin)).
+      set (k1 := k_set_in k (k_inBuffPos k + loaded) (k_inToCompress k) (k_inBuffTarget k) (k_inPend k ++ tk loaded gin)).
+      set (g1 := g_mk k1 (dr loaded gin) (gip + loaded) gout gcap).
+      assert (K1 : KI P cs0 chunks k1).
+      { destruct K. unfold k1. constructor; ksimp; rewrite ?ESI; ki_close.
+        rewrite lenN_app, len_tk. unfold loaded, toLoad. split; lia. }
+      assert (S1 : GStep cs0 chunks chunks (g_mk k gin gip gout gcap) g1).
+      { apply GStep_same with (e := []); unfold g1, k1; ksimp; rewrite ?Hh, ?app_nil_r, ?lenN_nil, ?len_dr; cbn [app]; try reflexivity.
+        all: try (rewrite <- app_assoc, tk_dr; reflexivity).
+        all: unfold loaded; lia. }
+      assert (Hphi : phi g1 <= phi (g_mk k gin gip gout gcap)).
+      { unfold g1. apply phi_le_after_load; unfold k1; ksimp; auto.
+        - intros ->. rewrite tk_0, app_nil_r. reflexivity.
+        - unfold loaded. lia. }
+      assert (Hcomp : (k_inPend k1 <> [] \/ (dir = DirEnd /\ g_in g1 = [])) ->
+                      IterOK P cs0 dir chunks (g_mk k gin gip gout gcap) (g_compress P dir g1)).
+      { intros Hne. eapply IterOK_trans; [exact S1|exact Hphi|].
+        apply g_compress_spec; unfold g1; ksimp; auto. rewrite ESI. exact Hne. }
+      assert (F1 : k_inPend k1 = [] -> k_inBuffPos k + loaded = k_inToCompress k).
+      { unfold k1. ksimp. intros E. apply (f_equal lenN) in E. rewrite lenN_app, len_tk, lenN_nil in E. unfold loaded, toLoad in *. lia. }
+      destruct dir.
+      * (* continue: stop unless the block is full *)
+        change (IterOK P cs0 DirContinue chunks (g_mk k gin gip gout gcap)
+                  (if k_inBuffPos k + loaded <? k_inBuffTarget k then GStop g1 else g_compress P DirContinue g1)).
+        destruct (N.ltb_spec (k_inBuffPos k + loaded) (k_inBuffTarget k)) as [Hpart|Hfull].
+        -- cbn [IterOK]. exists chunks. split; [exact K1|split; [exact S1|split; [|split]]].
+           ++ apply SW_cont; unfold g1; ksimp; auto. apply lenN_zero_nil. rewrite len_dr. unfold loaded, toLoad in *. lia.
+           ++ intros _. unfold g1, k1. ksimp. exact Hh.
+           ++ unfold Strict, g1, k1. ksimp. intros; lia.
+        -- apply Hcomp. left. intros E. apply F1 in E. unfold loaded, toLoad in *. lia.
+      * (* flush: stop when nothing is pending *)
+        change (IterOK P cs0 DirFlush chunks (g_mk k gin gip gout gcap)
+                  (if k_inBuffPos k + loaded =? k_inToCompress k then GStop g1 else g_compress P DirFlush g1)).
+        destruct (N.eqb_spec (k_inBuffPos k + loaded) (k_inToCompress k)) as [Hnone|Hsome].
+        -- assert (Hl0 : loaded = 0) by lia.
+           assert (Hg : gin = []). { apply lenN_zero_nil. unfold loaded, toLoad in Hl0. lia. }
+           cbn [IterOK]. exists chunks. split; [exact K1|split; [exact S1|split; [|split]]].
+           ++ apply SW_flushed; unfold g1, k1; ksimp; auto.
+              ** rewrite Hg. apply dr_all. cbn. lia.
+              ** apply lenN_zero_nil. rewrite lenN_app, len_tk. lia.
+           ++ intros _. unfold g1, k1. ksimp. exact Hh.
+           ++ unfold Strict, g1, k1. ksimp. intros; lia.
+        -- apply Hcomp. left. intros E. apply F1 in E. lia.
+      * change (IterOK P cs0 DirEnd chunks (g_mk k gin gip gout gcap) (g_compress P DirEnd g1)).
+        apply Hcomp. destruct (k_inPend k1) eqn:E1; [right|left; discriminate].
+        split; [reflexivity|]. specialize (F1 eq_refl). unfold g1. ksimp.
+        apply lenN_zero_nil. rewrite len_dr. unfold loaded, toLoad in *. lia.
+Qed.
+
+(* ---------- one iteration, the loop ---------- *)
+Lemma g_iter_spec P cs0 dir chunks g :
+  KI P cs0 chunks (g_k g) -> k_stage (g_k g) <> KInit -> k_held (g_k g) = [] -> Strict P (g_k g) ->
+  IterOK P cs0 dir chunks g (g_iter P dir g).
+Proof.
+  intros K Hst Hh HS. unfold CStreamModel.g_iter. destruct (k_stage (g_k g)) eqn:E; [congruence| |].
+  - apply g_load_spec; auto.
+  - apply g_flush_spec; auto.
+Qed.
+
+Definition LoopOK (P : kparams) (cs0 : CS) (dir : directive) (chunks : list (bytes * bool)) (g : gstate) (r : gres CS) : Prop :=
+  match r with
+  | GErr e => e = KdstSize_tooSmall
+  | GCont _ => False
+  | GStop g' => exists chunks', KI P cs0 chunks' (g_k g') /\ GStep cs0 chunks chunks' g g' /\ StopWhy P dir g' /\
+                                (kp_stableIn P = false -> k_held (g_k g') = []) /\ Strict P (g_k g')
+  end.
+
+Lemma phi_ge_2 (g : gstate) : k_frameEnded (g_k g) = false -> 2 <= phi g.
+Proof. intros H. unfold phi. rewrite H. lia. Qed.
+
+Lemma g_loop_spec P cs0 dir : forall fuel chunks g,
+  KI P cs0 chunks (g_k g) -> k_stage (g_k g) <> KInit -> k_held (g_k g) = [] -> Strict P (g_k g) ->
+  phi g < N.of_nat fuel + 2 -> (1 <= fuel)%nat ->
+  LoopOK P cs0 dir chunks g (g_loop fuel P dir g).
+Proof.
+  induction fuel as [|f IH]; intros chunks g K Hst Hh HS Hphi Hf; [lia|].
+  cbn [CStreamModel.g_loop].
+  pose proof (g_iter_spec P cs0 dir chunks g K Hst Hh HS) as Hi.
+  destruct (g_iter P dir g) as [g'|g'|e]; cbn [IterOK] in Hi.
+  - destruct Hi as (c' & K' & S' & Hst' & Hp & Hh' & HS').
+    pose proof (ki_load _ _ _ _ K' Hst') as (_ & Hfe').
+    pose proof (phi_ge_2 g' Hfe') as H2.
+    assert (Hf' : (1 <= f)%nat) by lia.
+    assert (Hphi' : phi g' < N.of_nat f + 2) by lia.
+    specialize (IH c' g' K' ltac:(congruence) Hh' HS' Hphi' Hf').
+    unfold LoopOK in *. destruct (g_loop f P dir g') as [g2|g2|e2]; auto.
+    destruct IH as (c2 & K2 & S2 & W2 & Hh2 & HS2). exists c2.
+    split; [exact K2|split; [eapply GStep_trans; eauto|split; [exact W2|split; [exact Hh2|exact HS2]]]].
+  - exact Hi.
+  - exact Hi.
+Qed.
+
+Lemma phi_bound (g : gstate) : phi g <= 2 * lenN (g_in g) + 5.
+Proof. unfold phi. destruct (k_stage (g_k g)); destruct (k_inPend (g_k g)); destruct (k_frameEnded (g_k g)); lia. Qed.
 
 End CProofs.
